@@ -79,7 +79,10 @@ def _rand_model(rng):
             n = rng.randint(1, 6)
             configs = []
             cfgs = [dict()] + rng.sample([dict(lang="de"), dict(lang="fr", region="CA"), dict(lang="fil"), dict(density=240),
-                                          dict(sdk=21), dict(lang="es", region="419")], rng.randint(0, 2))
+                                          dict(sdk=21), dict(lang="es", region="419"), dict(color_mode=1), dict(color_mode=8),
+                                          dict(layout2=1), dict(mcc=310), dict(orientation=2), dict(keyboard=3), dict(width=320),
+                                          dict(layout=2), dict(ui_mode=0x21), dict(smallest=600), dict(width_dp=720),
+                                          dict(lang="de", color_mode=4)], rng.randint(0, 3))
             for cfg in cfgs:
                 entries = {}
                 for i in range(n):
@@ -111,8 +114,11 @@ def _rand_model(rng):
     return pkgs
 
 
+FIELDS = ("density", "sdk", "mcc", "orientation", "keyboard", "width", "layout", "ui_mode", "smallest", "width_dp", "layout2", "color_mode")
+
+
 def _cfg_key(cfg):
-    return (cfg.get("lang", ""), cfg.get("region", ""), cfg.get("density", 0), cfg.get("sdk", 0))
+    return (cfg.get("lang", ""), cfg.get("region", "")) + tuple(cfg.get(f, 0) for f in FIELDS)
 
 
 def _got_cfg_key(c):
@@ -120,7 +126,9 @@ def _got_cfg_key(c):
     lang, _, region = loc.partition("-r")
     if loc == "\x00\x00":
         lang = region = ""
-    return (lang, region, c.get_density(), (c.version & 0xFFFF))
+    return (lang, region, c.screenType >> 16, c.version & 0xFFFF, c.imsi & 0xFFFF, c.screenType & 0xFF, c.input & 0xFF,
+            c.screenSize & 0xFFFF, c.screenConfig & 0xFF, (c.screenConfig >> 8) & 0xFF, c.screenConfig >> 16, c.screenSizeDp & 0xFFFF,
+            c.screenConfig2 & 0xFF, (c.screenConfig2 >> 8) & 0xFF)
 
 
 @unit("C28", covers=[(AXML, "ARSCParser.__init__"), (AXML, "ARSCParser._analyse"), (AXML, "ARSCParser.get_res_configs"),
@@ -196,3 +204,26 @@ def generated_tables(U):
                         r = U.call(rr.resolve, (pid << 24) | (ti << 16) | i)
                         U.ensures("resolver returns the stored string among the id's values",
                                   r.ok and e["data"] in [v for _, v in r.value if isinstance(v, str)], got=str(r.value)[:200], exc=repr(r.exc)[:100])
+
+
+@unit("C28", covers=[(AXML, "ARSCResTableConfig.__init__"), (AXML, "ARSCResTableConfig.__eq__"), (AXML, "ARSCResTableConfig._get_tuple")],
+      params=[{"size": z} for z in (28, 36, 52, 64)], samples=60, max_paths=4000)
+def config_identity(U, size):
+    """two configurations are the same key iff every configuration word they carry is equal"""
+    m = U.mod(AXML)
+    words = {28: 6, 36: 8, 52: 9, 64: 9}[size]
+    b1, b2 = U.bytes("c1", size - 4), U.bytes("c2", size - 4)
+    hdr = [size, 0, 0, 0]
+    mk = lambda b: (SymBytes(hdr + list(b.items)) if U.mode == "sym" else bytes(hdr) + bytes(b))
+    o1, o2 = U.call(m.ARSCResTableConfig, U.stream(mk(b1))), U.call(m.ARSCResTableConfig, U.stream(mk(b2)))
+    U.ensures("parses", o1.ok and o2.ok, exc=repr(o1.exc or o2.exc))
+    if not (o1.ok and o2.ok):
+        return
+    l1 = list(b1.items) if hasattr(b1, "items") else list(b1)
+    l2 = list(b2.items) if hasattr(b2, "items") else list(b2)
+    # the words compared: imsi, locale, screenType, input, screenSize, version, screenConfig, screenSizeDp (offsets 0..31) and
+    # screenConfig2 (offset 44); localeScript/localeVariant (32..43) are NOT part of androguard's key: recorded limitation
+    offs = list(range(0, 4 * min(words, 8))) + (list(range(44, 48)) if words == 9 else [])
+    same = And(*[l1[i] == l2[i] for i in offs])
+    eq = o1.value == o2.value
+    U.ensures("equal configuration words <=> same configuration key", Eq(bool(eq) if not isinstance(eq, bool) else eq, bool(same) if not isinstance(same, bool) else same))
